@@ -49,7 +49,8 @@ PROPS = {
   "level_text": "C07_app_limited_{aimd,vegas,gradient,gradient2} proved for all states and samples (stored estimate untouched, nobody notified); C07_aimd_recovers proved; "
                 "C07_gradient_recovers / C07_gradient_recovery_run (every healthy saturated non-probe sample adds at least 4 up to the ceiling: min(max, est + 4n) after n) and "
                 "C07_vegas_recovers / C07_vegas_recovery_run (smoothing 1.0: min(max, est + 6n)), C07_vegas_recovers_any_smoothing / C07_vegas_recovered (any smoothing: +s/2 per sample, within one of "
-                "the ceiling after 2(max - est)/s samples) proved from every state in the safety invariant; Gradient2 and probe-interleaved runs are decided by replay + bounded-run oracle.",
+                "the ceiling after 2(max - est)/s samples) proved from every state in the safety invariant; C07_gradient2_recovers / C07_gradient2_recovery_run: + 2s per healthy sample at a constant RTT once the long-term average has caught up "
+                "(its deficit provably stays below 4u/f of the RTT); Gradient2's catch-up phase and probe-interleaved runs are decided by replay + bounded-run oracle.",
   "level_note": "Trusted as C04. The app-limited theorems use the implementation's own float comparison as hypothesis (exact for in-flight < 2^31).",
   "technique": "Coq case-analysis theorems + differential replay and recovery-run oracle",
  },
